@@ -127,6 +127,21 @@ func c02r5(c *Ctx, r *Report) {
 							}
 						}
 					}
+					// ... and it looks only in FRONT of the lower-case hit: its haystack is cut at that hit, otherwise a
+					// later upper-case occurrence replaces an earlier lower-case one (round-2 mutant C01c2)
+					if oc, isCall := o.in.(*ssa.Call); isCall {
+						cut := false
+						for w := range backwardSlice(oc.Call.Args[0], nil, nil) {
+							if sl, ok := w.(*ssa.Slice); ok && sl.High != nil {
+								for v := range backwardSlice(sl.High, nil, nil) {
+									if v == ssa.Value(base) {
+										cut = true
+									}
+								}
+							}
+						}
+						r.check(cut, key+" confined to the text before the lower-case hit", o.in.Pos(), fn, "the haystack of the upper-case search ends at the lower-case hit", "the upper-case search covers the whole window: a later upper-case occurrence overrides an earlier lower-case one")
+					}
 					r.check(dep == "", key+" that runs unconditionally", o.in.Pos(), fn, "the upper-case search does not depend on the outcome of the lower-case search", fmt.Sprintf("the upper-case search is control dependent on the result of the lower-case search (condition at %s): when both cases occur, the later one can win", dep))
 				}
 			}
